@@ -90,7 +90,74 @@ Proof.
       rewrite (Hq2 HA1), (HW HA2). reflexivity.
 Qed.
 
-(* ---------------------------------------------------------------- unique names *)
+(* ---------------------------------------------------------------- Parameters.set_fix *)
+Lemma xle_true_xlt_false a b : xle a b = true -> xlt b a = false.
+Proof.
+  destruct a as [| |x|], b as [| |y|]; cbn; intros H; try discriminate; try reflexivity.
+  rewrite H. reflexivity.
+Qed.
+
+Lemma xle_true_not_nan a b : xle a b = true -> isnan a = false /\ isnan b = false.
+Proof. destruct a, b; cbn; intros H; try discriminate; auto. Qed.
+
+(* re-fixing a well-formed parameter never fails and changes the flag only *)
+Lemma param_replace_fix_total p b :
+  param_wf p = true ->
+  param_replace p None None None None (Some b) = Some (mkparam (p_name p) (p_init p) (p_lower p) (p_upper p) b).
+Proof.
+  unfold param_wf, param_replace, param_create. intros H. apply andb_true_iff in H. destruct H as [H1 H2].
+  destruct (xle_true_not_nan _ _ H1) as [Nl Ni]. destruct (xle_true_not_nan _ _ H2) as [_ Nu].
+  rewrite Ni, Nl, Nu. cbn [orb]. rewrite (xle_true_xlt_false _ _ H1), (xle_true_xlt_false _ _ H2). reflexivity.
+Qed.
+
+(* whatever replace returns differs from p in the flag only *)
+Lemma param_replace_fix_shape p b q :
+  param_replace p None None None None (Some b) = Some q ->
+  q = mkparam (p_name p) (p_init p) (p_lower p) (p_upper p) b.
+Proof.
+  unfold param_replace, param_create. destruct (isnan (p_init p)); [discriminate|].
+  destruct (isnan (p_lower p) || isnan (p_upper p)); [discriminate|].
+  destruct (xlt (p_init p) (p_lower p)); [discriminate|]. destruct (xlt (p_upper p) (p_init p)); [discriminate|].
+  intros H. inversion H. reflexivity.
+Qed.
+
+Lemma set_fix_shape fx : forall l r, set_fix l fx = Some r -> r = map (with_fix fx) l.
+Proof.
+  induction l as [|p tl IH]; intros r H; cbn [set_fix] in H.
+  - inversion H. reflexivity.
+  - cbn [map]. unfold with_fix at 1.
+    destruct (alookup_b fx (p_name p)) as [b|] eqn:EL.
+    + destruct (param_replace p None None None None (Some b)) as [q|] eqn:EQ; [|discriminate].
+      destruct (set_fix tl fx) as [r'|] eqn:ER; [|discriminate]. inversion H; subst r.
+      rewrite (param_replace_fix_shape _ _ _ EQ), (IH r' eq_refl). reflexivity.
+    + destruct (set_fix tl fx) as [r'|] eqn:ER; [|discriminate]. inversion H; subst r.
+      rewrite (IH r' eq_refl). reflexivity.
+Qed.
+
+Lemma with_fix_wf fx p : param_wf (with_fix fx p) = param_wf p.
+Proof. unfold with_fix. destruct (alookup_b fx (p_name p)); reflexivity. Qed.
+
+Lemma with_fix_fields fx p :
+  p_name (with_fix fx p) = p_name p /\ p_init (with_fix fx p) = p_init p /\
+  p_lower (with_fix fx p) = p_lower p /\ p_upper (with_fix fx p) = p_upper p.
+Proof. unfold with_fix. destruct (alookup_b fx (p_name p)); cbn; auto. Qed.
+
+Lemma set_fix_total fx : forall l, forallb param_wf l = true -> set_fix l fx = Some (map (with_fix fx) l).
+Proof.
+  induction l as [|p tl IH]; intros H; cbn [set_fix map]; [reflexivity|].
+  cbn [forallb] in H. apply andb_true_iff in H. destruct H as [Hp Ht].
+  unfold with_fix at 1. destruct (alookup_b fx (p_name p)) as [b|] eqn:EL.
+  - rewrite (param_replace_fix_total p b Hp), (IH Ht). reflexivity.
+  - rewrite (IH Ht). reflexivity.
+Qed.
+
+Lemma set_fix_wf fx l r : set_fix l fx = Some r -> forallb param_wf l = true -> forallb param_wf r = true.
+Proof.
+  intros H W. rewrite (set_fix_shape fx l r H). clear H.
+  induction l as [|p tl IH]; cbn [map forallb] in *; [reflexivity|].
+  apply andb_true_iff in W. destruct W as [W1 W2]. rewrite with_fix_wf, W1, (IH W2). reflexivity.
+Qed.
+
 Lemma first_dup_none seen l :
   first_dup seen l = None -> NoDup l /\ forall x, In x l -> ~ In x seen.
 Proof.
